@@ -1,7 +1,15 @@
 package props
 
 import (
+	"fmt"
+	"go/constant"
+	"go/token"
+	"go/types"
+	"strings"
+
 	"utilcheck/flow"
+	"utilcheck/load"
+	"utilcheck/pred"
 )
 
 func init() {
@@ -33,6 +41,329 @@ func runC08(e *Env) {
 			c.RuleTrim(c.Reachable(dp))
 		}
 	})
-	e.S.Floor("C08.ovf", 1)
+	ruleC08NewSize(e)
+	ruleC08Text(e)
+	ruleC08Max(e, e.P, "")
+	if e.P386 != nil {
+		ruleC08Max(e, e.P386, " (GOARCH=386)")
+	}
+	e.S.Floor("C08.ovf", 8)
+	e.S.Floor("C08.text", 6)
+	e.S.Floor("C08.max", 36)
 	e.S.Floor("C08.trim", 1)
+}
+
+// sizeErrType classifies newSize's error results by their dynamic type.
+func sizeErrType(v pred.Val) string {
+	switch x := v.(type) {
+	case pred.Const:
+		if x.V == nil {
+			return "nil"
+		}
+	case pred.Iface:
+		s := types.TypeString(x.Dyn, func(p *types.Package) string { return "" })
+		s = strings.TrimPrefix(s, "*")
+		if i := strings.Index(s, "["); i > 0 {
+			s = s[:i]
+		}
+		return s
+	case pred.Term:
+		return x.String()
+	}
+	return v.String()
+}
+
+// ruleC08NewSize: decision table of size.newSize.
+func ruleC08NewSize(e *Env) {
+	const rule = "C08.ovf"
+	fn := e.Fn(rule, "size", "newSize")
+	if fn == nil {
+		return
+	}
+	site := flow.FnName(fn)
+	const (
+		kZero   = "value?0"
+		kEmpty  = `unit==""`
+		kZU     = "lookup#1(*size.zeroUnits,unit)"
+		kUTV    = "lookup#1(*size.unitToValues,unit)"
+		kRound  = "roundtrip"
+		kHi     = "hi!=0"
+		mulTerm = "math/bits.Mul64"
+	)
+	keyOf := func(a, b pred.Val) (string, bool) {
+		as, bs := a.String(), b.String()
+		switch {
+		case as == "value" && bs == "0":
+			return kZero, true
+		case as == "unit" && bs == `""`:
+			return kEmpty, true
+		case (as == kZU || as == kUTV) && bs == "true":
+			return as, true
+		case strings.HasPrefix(as, "conv[") && strings.Contains(as, "value") && bs == "value":
+			return kRound, true
+		case bs == "value" && strings.HasPrefix(as, "conv["):
+			return kRound, true
+		case strings.HasPrefix(as, mulTerm+"#0(") && bs == "0":
+			return kHi, true
+		}
+		return "", false
+	}
+	domain := func(k string) []int {
+		if k == kZero {
+			return []int{-1, 0, 1}
+		}
+		return []int{0, 1}
+	}
+	mk := func() []pred.Val { return []pred.Val{pred.Sym{Name: "value"}, pred.Sym{Name: "unit"}} }
+	leaves, err := extractTree(e.P.SSA, fn, mk, nil, nil, keyOf, domain)
+	if err != nil {
+		e.S.Unk(rule, site, "table", err.Error(), e.Pos(fn))
+		return
+	}
+	for _, lf := range leaves {
+		construct := lf.String()
+		if lf.Err != nil {
+			e.S.Unk(rule, site, construct, lf.Err.Error(), e.Pos(fn))
+			continue
+		}
+		t, ok := lf.Out.Ret.(pred.Tuple)
+		if !ok || len(t) != 2 {
+			e.S.Unk(rule, site, construct, lf.Out.Ret.String(), e.Pos(fn))
+			continue
+		}
+		val, asked := lf.Assign[kZero]
+		get := func(k string) int { // 1 true(equal), 0 false, 2 unknown
+			v, ok := lf.Assign[k]
+			if !ok {
+				return 2
+			}
+			if v == 0 {
+				return 1
+			}
+			return 0
+		}
+		want := "?"
+		switch {
+		case !asked:
+		case val == 0: // value == 0
+			switch get(kZU) {
+			case 1:
+				want = "0 / nil"
+			case 0:
+				want = "0 / InvalidUnitError"
+			}
+		case val < 0:
+			want = "0 / InvalidValueError"
+		default: // value > 0
+			rt := get(kRound) // 1: conv(uint64(value)) == value
+			switch {
+			case rt == 0:
+				want = "0 / InvalidValueError"
+			case rt == 1 && get(kEmpty) == 1:
+				want = "conv(value) / nil"
+			case rt == 1 && get(kEmpty) == 0 && get(kUTV) == 0:
+				want = "0 / InvalidUnitError"
+			case rt == 1 && get(kEmpty) == 0 && get(kUTV) == 1:
+				switch get(kHi) {
+				case 1: // hi == 0
+					want = "lo / nil"
+				case 0:
+					want = "0 / InvalidValueError"
+				}
+			}
+		}
+		gv := t[0].String()
+		switch {
+		case strings.HasPrefix(gv, "conv[") && strings.HasSuffix(gv, "(value)"):
+			gv = "conv(value)"
+		case strings.HasPrefix(gv, mulTerm+"#1(conv[uint64](value),lookup#0(*size.unitToValues,unit))"):
+			gv = "lo"
+		}
+		got := gv + " / " + sizeErrType(t[1])
+		switch {
+		case want == "?":
+			e.S.Bad(rule, site, construct, "outcome "+got+" is reached without the tests exactness needs (sign, integrality round trip, unit table, high word of the 128-bit product)", e.Pos(fn), "")
+		case got != want:
+			e.S.Bad(rule, site, construct, "outcome "+got+", documented "+want, e.Pos(fn), "")
+		default:
+			e.S.Ok(rule, site, construct, "outcome "+want, e.Pos(fn))
+		}
+	}
+}
+
+// ruleC08Text: decision table of size.unmarshalText.
+func ruleC08Text(e *Env) {
+	const rule = "C08.text"
+	fn := e.Fn(rule, "size", "unmarshalText")
+	pn := e.P.Func("size", "prepareNumber")
+	ns := e.P.Func("size", "newSize")
+	if fn == nil || pn == nil || ns == nil {
+		return
+	}
+	site := flow.FnName(fn)
+	bit, _ := tabConstInt(e, "size", "RuleDisableUnit")
+	sums := map[string]pred.Summary{
+		pn.String(): func(ev *pred.Evaluator, args []pred.Val) (pred.Val, error) {
+			if len(args) != 1 || args[0].String() != "input" {
+				return nil, &pred.Undecided{Reason: "prepareNumber is not applied to the whole input"}
+			}
+			return pred.Tuple{pred.Sym{Name: "number"}, pred.Sym{Name: "unit"}}, nil
+		},
+		ns.String(): func(ev *pred.Evaluator, args []pred.Val) (pred.Val, error) {
+			return pred.Tuple{pred.Term{Fn: "newSize#0", Args: args}, pred.Term{Fn: "newSize#1", Args: args}}, nil
+		},
+	}
+	rk := ruleBitsKey("r")
+	keyOf := func(a, b pred.Val) (string, bool) {
+		if k, ok := rk(a, b); ok {
+			return k, true
+		}
+		if s, ok := a.(pred.Sym); ok && b.String() == `""` {
+			return s.Name + `==""`, true
+		}
+		return errKeyOf(a, b)
+	}
+	mk := func() []pred.Val { return []pred.Val{pred.Sym{Name: "input"}, pred.Sym{Name: "r"}} }
+	leaves, err := extractTree(e.P.SSA, fn, mk, sums, nil, keyOf, binDomain)
+	if err != nil {
+		e.S.Unk(rule, site, "table", err.Error(), e.Pos(fn))
+		return
+	}
+	parse := "strconv.ParseUint(number,10,64)"
+	kBit := fmt.Sprintf("r&bits(%d)", bitIndex(bit))
+	for _, lf := range leaves {
+		construct := lf.String()
+		if lf.Err != nil {
+			e.S.Unk(rule, site, construct, lf.Err.Error(), e.Pos(fn))
+			continue
+		}
+		t, ok := lf.Out.Ret.(pred.Tuple)
+		if !ok || len(t) != 2 {
+			e.S.Unk(rule, site, construct, lf.Out.Ret.String(), e.Pos(fn))
+			continue
+		}
+		get := func(k string) int {
+			v, ok := lf.Assign[k]
+			if !ok {
+				return 2
+			}
+			if v == 0 {
+				return 1
+			}
+			return 0
+		}
+		pv := ext(parse, 0)
+		nsCall := "newSize(" + pv + ",unit)"
+		want := "?"
+		switch {
+		case get(`number==""`) == 1:
+			want = "0 / ParseError(nil)"
+		case get(`number==""`) == 0 && get("nil? "+ext(parse, 1)) == 0:
+			want = "0 / ParseError(" + ext(parse, 1) + ")"
+		case get(`number==""`) == 0 && get("nil? "+ext(parse, 1)) == 1:
+			switch {
+			case get(`unit==""`) == 1:
+				want = pv + " / nil"
+			case get(`unit==""`) == 0 && get(kBit) == 0: // masked != 0: units disabled
+				want = "0 / ParseError(ErrUnitDisabled)"
+			case get(`unit==""`) == 0 && get(kBit) == 1:
+				switch get("nil? " + ext(nsCall, 1)) {
+				case 1:
+					want = ext(nsCall, 0) + " / nil"
+				case 0:
+					want = "0 / ParseError(" + ext(nsCall, 1) + ")"
+				}
+			}
+		}
+		got := t[0].String() + " / " + sizeErrKind(t[1])
+		switch {
+		case want == "?":
+			e.S.Bad(rule, site, construct, "outcome "+got+" is reached without the documented tests (digits present, ParseUint error, unit present, RuleDisableUnit, newSize error)", e.Pos(fn), "")
+		case got != want:
+			e.S.Bad(rule, site, construct, "outcome "+got+", documented "+want, e.Pos(fn), "")
+		default:
+			e.S.Ok(rule, site, construct, "outcome "+want, e.Pos(fn))
+		}
+	}
+}
+
+// ruleC08Max: internal.Max / Min / SmallestNonzero as tables over reflect.Kind; Bytes' use of them.
+func ruleC08Max(e *Env, prog *load.Prog, tag string) {
+	const rule = "C08.max"
+	var reflectPkg, mathPkg *types.Package
+	for _, p := range prog.SSA.AllPackages() {
+		switch p.Pkg.Path() {
+		case "reflect":
+			reflectPkg = p.Pkg
+		case "math":
+			mathPkg = p.Pkg
+		}
+	}
+	if reflectPkg == nil || mathPkg == nil {
+		e.S.Unk(rule, "internal", "stdlib", "packages reflect/math not in the program", "")
+		return
+	}
+	cval := func(pkg *types.Package, name string) constant.Value {
+		if c, ok := pkg.Scope().Lookup(name).(*types.Const); ok {
+			return c.Val()
+		}
+		return nil
+	}
+	neg := func(v constant.Value) constant.Value {
+		if v == nil {
+			return nil
+		}
+		return constant.UnaryOp(token.SUB, v, 0)
+	}
+	type row struct {
+		kind         string
+		max, min, sn constant.Value
+	}
+	one, zero := constant.MakeInt64(1), constant.MakeInt64(0)
+	rows := []row{
+		{"Int", cval(mathPkg, "MaxInt"), cval(mathPkg, "MinInt"), one},
+		{"Int8", cval(mathPkg, "MaxInt8"), cval(mathPkg, "MinInt8"), one},
+		{"Int16", cval(mathPkg, "MaxInt16"), cval(mathPkg, "MinInt16"), one},
+		{"Int32", cval(mathPkg, "MaxInt32"), cval(mathPkg, "MinInt32"), one},
+		{"Int64", cval(mathPkg, "MaxInt64"), cval(mathPkg, "MinInt64"), one},
+		{"Uint", cval(mathPkg, "MaxUint"), zero, one},
+		{"Uint8", cval(mathPkg, "MaxUint8"), zero, one},
+		{"Uint16", cval(mathPkg, "MaxUint16"), zero, one},
+		{"Uint32", cval(mathPkg, "MaxUint32"), zero, one},
+		{"Uint64", cval(mathPkg, "MaxUint64"), zero, one},
+		{"Float32", cval(mathPkg, "MaxFloat32"), neg(cval(mathPkg, "MaxFloat32")), cval(mathPkg, "SmallestNonzeroFloat32")},
+		{"Float64", cval(mathPkg, "MaxFloat64"), neg(cval(mathPkg, "MaxFloat64")), cval(mathPkg, "SmallestNonzeroFloat64")},
+	}
+	for _, f := range []struct {
+		name string
+		pick func(r row) constant.Value
+	}{{"Max", func(r row) constant.Value { return r.max }}, {"Min", func(r row) constant.Value { return r.min }}, {"SmallestNonzero", func(r row) constant.Value { return r.sn }}} {
+		fn := prog.Func("internal", f.name)
+		if fn == nil {
+			e.S.Unk(rule, "internal."+f.name, "anchor", "function not found", "")
+			continue
+		}
+		site := flow.FnName(fn)
+		for _, r := range rows {
+			construct := r.kind + tag
+			kv := cval(reflectPkg, r.kind)
+			want := f.pick(r)
+			if kv == nil || want == nil {
+				e.S.Unk(rule, site, construct, "stdlib constant not found", "")
+				continue
+			}
+			ev := &pred.Evaluator{Prog: prog.SSA, Oracle: noOracle{}}
+			out, err := ev.Eval(fn, []pred.Val{pred.Const{V: kv}})
+			if err != nil {
+				e.S.Bad(rule, site, construct, "for reflect."+r.kind+" the function does not fold to a constant: "+err.Error()+" (a boxed type that differs from the asserted type panics at run time)", "", "")
+				continue
+			}
+			c, ok := out.Ret.(pred.Const)
+			if !ok || c.V == nil || !constant.Compare(constant.ToFloat(c.V), token.EQL, constant.ToFloat(want)) {
+				e.S.Bad(rule, site, construct, fmt.Sprintf("%s(reflect.%s) = %v, the bound of that kind is %v", f.name, r.kind, out.Ret, want), "", "")
+			} else {
+				e.S.Ok(rule, site, construct, fmt.Sprintf("%s(reflect.%s) = %s", f.name, r.kind, want.String()), "")
+			}
+		}
+	}
 }
